@@ -167,7 +167,7 @@ int main()
         g_id = id;
         printf("C %ld\n", id);
         fflush(stdout);
-        alarm(120);
+        alarm(cmd == "API" ? 120 : 15); // every non-API call takes milliseconds
         tsne::TSNE T;
         if (cmd == "DD" || cmd == "ZM")
         {
@@ -368,7 +368,6 @@ int main()
             ps.add(target_dimension = (IndexType)d);
             ps.add(sne_perplexity = perp);
             ps.add(sne_theta = theta);
-            alarm(600);
             try
             {
                 typedef std::vector<IndexType>::iterator It;
